@@ -286,6 +286,10 @@ func classOf(e *actionlint.Error) int {
 			return clValue
 		}
 		return clOther
+	case "matrix":
+		if has("\"exclude\" section exists but no matrix variation exists") {
+			return clKey
+		}
 	case "runner-label":
 		if has("label ") && strings.Contains(m, " is unknown") {
 			return clValue
@@ -819,7 +823,9 @@ var keySites = []string{"top", "job", "step", "strategy", "on.push", "step.with-
 	"container.credentials", "service.credentials",
 	// two filters that exclude each other, the flow mapping broken over two lines with the LATER key
 	// in a smaller column: the later key is the one reported
-	"on.push-exclusive-2lines"}
+	"on.push-exclusive-2lines",
+	// a matrix with `exclude` and nothing to exclude from: reported at the `matrix` key
+	"matrix.exclude-only"}
 
 func genKeySpec(r *hx.Rng, id int) Spec {
 	s := Spec{ID: id, Family: "key"}
@@ -935,6 +941,11 @@ func genGlobSpec(r *hx.Rng, id int) Spec {
 		s.Text = "!" + s.Text
 		s.Marker, s.Delta = s.Text, len(pre)+1
 		s.Variant = "negated-ref-char-" + c
+	} else if s.Style != 0 && id%3 == 1 {
+		// a quoted pattern with SEVERAL offending characters: each report has its own column
+		s.Text = pre + c + post + "^" + "v" + "~" + "u"
+		s.Marker, s.Delta = s.Text, len(pre)
+		s.Variant = "several-ref-chars-" + c
 	}
 	return s
 }
@@ -1038,6 +1049,19 @@ func build(s Spec) (*Built, error) {
 			push.above = s.Above
 			doc.get("on").set("push", push)
 			scalarSrc = key + ": [src]"
+			bt.Quoted = s.KeyStyle != 0
+			break
+		}
+		if s.Site == "matrix.exclude-only" {
+			key = quote(s.KeyStyle, "matrix")
+			ex := mp("exclude", sq(mp("m", "a")))
+			ex.above = s.Above
+			strat := mp("fail-fast", "false", key, ex)
+			if s.ID%2 == 0 {
+				strat = mp(key, ex, "max-parallel", "2")
+			}
+			job.set("strategy", strat)
+			scalarSrc = key
 			bt.Quoted = s.KeyStyle != 0
 			break
 		}
@@ -1370,6 +1394,26 @@ func oracle(bt *Built, ds []diag) []fail {
 	got := classPositions(ds, bt.Class)
 	if len(got) == 0 {
 		return fs // not triggered: counted by the caller
+	}
+	if strings.HasPrefix(s.Variant, "several-ref-chars") {
+		// one report per offending character, each at its own column
+		want := map[[2]int]bool{}
+		for i := 0; i < len(s.Text); i++ {
+			if strings.IndexByte("~^ :", s.Text[i]) >= 0 {
+				want[[2]int{bt.TruthLine, bt.TruthCol + i - s.Delta}] = true
+			}
+		}
+		ok := len(got) == len(want)
+		for _, g := range got {
+			ok = ok && want[[2]int{g[0], g[1]}]
+		}
+		if !ok {
+			fs = append(fs, fail{
+				What: fmt.Sprintf("glob diagnostics of a pattern with several offending characters are reported at %v, the characters are at %v", got, want),
+				Key:  fmt.Sprintf("exact:%s:%s:several", s.Kind, callSite(s)),
+				Spec: s, File: bt.File, Truth: [2]int{bt.TruthLine, bt.TruthCol}, Got: got})
+		}
+		return fs
 	}
 	for _, g := range got {
 		if g[0] != bt.TruthLine || g[1] != bt.TruthCol {
